@@ -12,6 +12,7 @@ import (
 	"context"
 	"crypto/tls"
 	"fmt"
+	"strings"
 	"testing"
 	"time"
 
@@ -126,6 +127,237 @@ func TestVerif_C12_alpn(t *testing.T) {
 		}
 	}
 	for _, must := range []string{"force=-", "force=1", "force=2", "force=3", "offer=-", "offer=21", "offer=12", "offer=3", "offer=none", "route=ok:h1", "route=ok:h2", "route=ok:h3", "route=err:other"} {
+		if c12Hist[s][must] == 0 {
+			t.Errorf("never reached bucket %q", must)
+		}
+	}
+	s.Finish()
+}
+
+// Lane c12alpnseq (loopback e2e, sequences): ONE family of clients (original and clones) lives
+// through a sequence of SetTLSClientConfig(NextProtos …) / EnableForceHTTP1/2/3 /
+// DisableForceHttpVersion / EnableHTTP3 / Clone / "continue with member k" and REQUESTS
+// (plain or websocket-upgrade = HTTP/1.1 only). Before every request the member's idle
+// connections are closed, so each request dials: the origin captures the ClientHello's ALPN
+// list; the version is judged by what was actually negotiated. Compared with
+// Req.Pool.Alpn.astep (driver lane c12alpnseq; theorems alpn_offer_pure,
+// requests_leave_configuration, unforce_offers_configured_list): an offer is a function of
+// the mode and the configured NextProtos at that moment; no connection changes what this or
+// any related client is configured with (shared NextProtos backing arrays).
+func TestVerif_C12_alpnseq(t *testing.T) {
+	s := verifh.New(t, "C12", "c12alpnseq",
+		"sequences of 5..11 ops on a family of clients starting from C(): SetTLSClientConfig with NextProtos {[h2 http/1.1], [http/1.1 h2], [http/1.1], [h2], [spdy/9 h2 http/1.1], none}, force h1/h2/h3, un-force, EnableHTTP3, Clone, switch to another member, request {plain, websocket upgrade}; every second sequence starts with a directed scheme (set list, [clone], force h1 / upgrade request, un-force or switch back to the relative, request); every request dials (idle connections closed first) against origin {h2+h1, h2+h1+h3, h1-only}; observable per request: ALPN list of the ClientHello at the origin, listener (TCP/QUIC), Response.Proto / error kind; oracle: forced version used, Response.Proto = protocol the origin served, un-forced request to an h2 origin with h2 configured is carried by HTTP/2; non-trivial = a request after a mode switch or on a relative of a client that made a request")
+	r := s.Rand()
+	pki := c12GetPKI()
+	offers := []string{"h2h1", "all", "h1"}
+	origins := map[string]*c12Origin{}
+	for _, n := range offers {
+		o, err := c12StartOrigin(c12OfferTable[n])
+		if err != nil {
+			t.Fatalf("infrastructure: %v", err)
+		}
+		defer o.close()
+		origins[n] = o
+	}
+	protoSets := []string{"21", "21", "12", "1", "2", "x21", "-"}
+	n := verifh.N(60, 1500)
+	id := 0
+	for i := 0; i < n; i++ {
+		on := offers[r.Intn(len(offers))]
+		o := origins[on]
+		members := []*Client{C().SetRootCertFromString(pki.cas[0].pem)}
+		cur := 0
+		// model-side mirror of what is configured, for the oracle only
+		type mstate struct {
+			protos string
+			force  string
+		}
+		ms := []mstate{{"12", "-"}}
+		var plan []string
+		if i%2 == 0 {
+			plan = append(plan, "p:"+[]string{"21", "21", "x21"}[r.Intn(3)])
+			relative := r.Intn(2) == 0
+			if relative {
+				plan = append(plan, "fork", "sw1")
+			}
+			if r.Intn(3) == 0 {
+				plan = append(plan, "r1")
+			} else {
+				plan = append(plan, "f1", "r0")
+				if !relative || r.Intn(2) == 0 {
+					plan = append(plan, "uf")
+				}
+			}
+			if relative {
+				plan = append(plan, "sw0")
+			}
+			plan = append(plan, "r0")
+			c12Count(s, "scheme:h1-only-connection-then-unforced")
+		}
+		nops := len(plan) + 3 + r.Intn(5)
+		var toks, outs []string
+		requests, switched, nontriv, okAll := 0, false, false, true
+		human := "C()"
+		crashed := ""
+		for e := 0; e < nops && crashed == ""; e++ {
+			tk := ""
+			if e < len(plan) {
+				tk = plan[e]
+			} else {
+				switch x := r.Intn(16); {
+				case x < 3:
+					ps := protoSets[r.Intn(len(protoSets))]
+					tk = "p:" + ps
+					if ps == "-" {
+						tk = "pn"
+					}
+				case x < 8:
+					tk = []string{"f1", "f1", "f2", "f3", "uf", "uf", "uf"}[r.Intn(7)]
+				case x == 8:
+					tk = "e3"
+				case x == 9:
+					tk = "fork"
+				case x == 10:
+					tk = fmt.Sprintf("sw%d", r.Intn(len(members)+1))
+				default:
+					tk = []string{"r0", "r0", "r0", "r1"}[r.Intn(4)]
+				}
+			}
+			if e == nops-1 && requests == 0 {
+				tk = "r0"
+			}
+			if tk == "r1" && (ms[cur].force == "2" || ms[cur].force == "3") {
+				tk = "r0" // an upgrade request under a forced HTTP/2 / HTTP/3 is refused by that stack (Connection header): not modelled, as in lane c12alpn
+			}
+			c := members[cur]
+			toks = append(toks, tk)
+			human += " ; " + tk
+			switch {
+			case tk == "pn":
+				c.SetTLSClientConfig(&tls.Config{RootCAs: pki.cas[0].pool()})
+				ms[cur].protos = "-"
+			case len(tk) > 2 && tk[:2] == "p:":
+				c.SetTLSClientConfig(&tls.Config{RootCAs: pki.cas[0].pool(), NextProtos: c12AlpnFromChars(tk[2:])})
+				ms[cur].protos = tk[2:]
+			case tk == "uf":
+				c12ForceApply(c, "-")
+				ms[cur].force = "-"
+				switched = true
+			case tk == "f1" || tk == "f2" || tk == "f3":
+				c12ForceApply(c, tk[1:])
+				ms[cur].force = tk[1:]
+				switched = true
+			case tk == "e3":
+				c.EnableHTTP3()
+			case tk == "fork":
+				members = append(members, c.Clone())
+				ms = append(ms, ms[cur])
+			case len(tk) > 2 && tk[:2] == "sw":
+				var k int
+				fmt.Sscanf(tk[2:], "%d", &k)
+				if k < len(members) {
+					cur = k
+					if requests > 0 {
+						switched = true
+					}
+				}
+			default: // request
+				id++
+				requests++
+				if switched {
+					nontriv = true
+				}
+				if tr := c.GetTransport(); tr != nil {
+					tr.CloseIdleConnections()
+					if tr.t3 != nil {
+						tr.t3.Close()
+					}
+				}
+				timeout := 3 * time.Second
+				if ms[cur].force == "3" && !o.offer.h3 {
+					timeout = 300 * time.Millisecond
+				}
+				ctx, cancel := context.WithTimeout(context.Background(), timeout)
+				before := len(o.hellosFrom(0))
+				rq := c.R().SetContext(ctx)
+				if tk == "r1" {
+					rq.SetHeader("Connection", "Upgrade").SetHeader("Upgrade", "websocket")
+				}
+				var resp *Response
+				var err error
+				ptxt, panicked := verifh.Safely(func() { resp, err = rq.Get(o.url("https", fmt.Sprintf("/alpnseq%d", id))) })
+				cancel()
+				if panicked {
+					crashed = ptxt
+					break
+				}
+				route := "err:other"
+				switch {
+				case err == nil:
+					route = "ok:" + c12ProtoShort(resp.Proto)
+				case c12ErrKind(err) == "tls":
+					route = "err:tls"
+				}
+				offer, quic := "none", "0"
+				if ms[cur].force == "3" {
+					quic = "1"
+				}
+				if hs := o.hellosFrom(before); len(hs) > 0 {
+					offer = c12AlpnChars(hs[0].alpn)
+					quic = c12B(hs[0].quic)
+				}
+				outs = append(outs, fmt.Sprintf("offer=%s;quic=%s;route=%s", offer, quic, route))
+				c12Count(s, "route="+route)
+				c12Count(s, "force="+ms[cur].force)
+				if err == nil && resp.Header.Get("X-Origin-Proto") != resp.Proto {
+					okAll = false
+					human += " [ORACLE: Response.Proto differs from the protocol the origin served]"
+				}
+				if err == nil && ms[cur].force != "-" && c12ProtoShort(resp.Proto) != "h"+ms[cur].force {
+					okAll = false
+					human += " [ORACLE: forced version not used]"
+				}
+				// un-forced, plain request, h2 configured and the origin speaks h2: the server picks h2
+				// (Go's server prefers its own order: h2 first) — the request must ride HTTP/2
+				h2cfg := false
+				for _, ch := range ms[cur].protos {
+					if ch == '2' {
+						h2cfg = true
+					}
+				}
+				if ms[cur].force == "-" && tk == "r0" && h2cfg && len(o.offer.alpn) > 0 && o.offer.alpn[0] == "h2" {
+					c12Count(s, "unforced-h2-expected")
+					if switched {
+						c12Count(s, "unforced-h2-expected-after-switch")
+					}
+					if err != nil || resp.Proto != "HTTP/2.0" {
+						okAll = false
+						human += " [ORACLE: h2 is configured and the origin negotiates it, yet the un-forced request was not carried by HTTP/2]"
+					}
+				}
+			}
+		}
+		for _, c := range members {
+			if tr := c.GetTransport(); tr != nil {
+				tr.CloseIdleConnections()
+				if tr.t3 != nil {
+					tr.t3.Close()
+				}
+			}
+		}
+		line := fmt.Sprintf("c12alpnseq %s %s %s", c12AlpnChars(o.offer.alpn), c12B(o.offer.h3), strings.Join(toks, ","))
+		human += " ; origin " + fmt.Sprint(o.offer)
+		if crashed != "" {
+			s.Crash(line, human, crashed, "")
+			continue
+		}
+		impl := "-"
+		if len(outs) > 0 {
+			impl = strings.Join(outs, ",")
+		}
+		s.Case(line, impl, okAll, "", nontriv, human)
+	}
+	for _, must := range []string{"scheme:h1-only-connection-then-unforced", "route=ok:h1", "route=ok:h2", "route=ok:h3", "force=-", "force=1", "force=2", "force=3", "unforced-h2-expected", "unforced-h2-expected-after-switch"} {
 		if c12Hist[s][must] == 0 {
 			t.Errorf("never reached bucket %q", must)
 		}
